@@ -144,6 +144,8 @@ def make_run(focus, seed):
         K = wchoice(rng, [(1, 5), (2, 4), (3, 1)])
     clients_cfg = [make_client_config(rng, focus, i) for i in range(K)]
     n_steps = rng.choice([8, 12, 16, 24, 32, 45, 60])
+    # how child R isolates its reference computations from one another (refs.run_deferred)
+    ref_isolation = 'fork' if rng.random() < 0.25 else 'reverse'
     burst = rng.choice([0.0, 0.3, 0.6, 0.85])
     fault_kinds = []
     if mode == 'inject':
@@ -485,6 +487,7 @@ def make_run(focus, seed):
         'focus': focus,
         'seed': seed,
         'config': {'mode': mode, 'K': K, 'n_steps': n_steps, 'burst': burst, 'fault_kinds': fault_kinds,
+                   'ref_isolation': ref_isolation,
                    'p_arm': p_arm, 'max_faults': max_faults, 'weights': W},
         'clients': clients_cfg,
         'plan': plan,
